@@ -16,7 +16,12 @@ def main(tier, only=None):
     rep.assumptions = ['integers within +-64 (no overflow)', 'K rows per table', 'sort keys are distinct when a rule involves LIMIT over ORDER (tie-breaking is unspecified)']
     K = 4 if thorough else 3
     sel = (lambda r: only in r.name) if only else None
-    rules_check.run(rep, rules, K, thorough, select=sel)
+    import os
+    if os.environ.get('C01_LAYER', 'both') in ('both', 'rules'):
+        rules_check.run(rep, rules, K, thorough, select=sel)
+    if os.environ.get('C01_LAYER', 'both') in ('both', 'queries'):
+        from . import query_layer
+        query_layer.run(rep, 'C01', K, thorough, 1500 if thorough else 150, only=only)
     return rep.finish()
 
 
